@@ -1749,3 +1749,302 @@ PROPS["C12"] = {
     "assumptions": [],
     "post": ["variants_equal"],
 }
+
+
+# ======================================================================================
+# C14 / C15 layers, costs, model loop (with an independent pure-Python reference)
+
+def ref_matmul_wt(x, xd, w, nout, nin, b):
+    """x: [..., nin] row-major; returns x W^T + b with dims [..., nout]"""
+    rows = prod(xd[:-1])
+    out = []
+    for r in range(rows):
+        for o in range(nout):
+            s = 0.0
+            for k in range(nin):
+                s += x[r * nin + k] * w[o * nin + k]
+            out.append(b[o] + s)
+    return out, xd[:-1] + [nout]
+
+
+def ref_conv(x, xd, f, fd, b, sr, sc):
+    count, depth, fr, fc = fd
+    batch = xd[:-3]
+    _, rows, cols = xd[-3:]
+    rc, cc = (rows - fr) // sr + 1, (cols - fc) // sc + 1
+    out = []
+    img_len = depth * rows * cols
+    for bi in range(prod(batch)):
+        for q in range(count):
+            for y in range(rc):
+                for xx in range(cc):
+                    s = 0.0
+                    for k in range(depth):
+                        for m in range(fr):
+                            for n in range(fc):
+                                s += x[bi * img_len + (k * rows + y * sr + m) * cols + xx * sc + n] * \
+                                    f[((q * depth + k) * fr + m) * fc + n]
+                    out.append(s + b[q])
+    return out, batch + [count, rc, cc]
+
+
+def ref_act(name, v, d, info):
+    if name == "none":
+        return v
+    if name == "relu":
+        info["min_preact"] = min([info.get("min_preact", 1e9)] + [abs(t) for t in v])
+        return [t if t > 0 else 0.0 for t in v]
+    if name == "sigmoid":
+        return [1.0 / (1.0 + math.exp(-t)) for t in v]
+    n = d[-1]
+    out = []
+    for r in range(len(v) // n):
+        e = [math.exp(t) for t in v[r * n:(r + 1) * n]]
+        s = sum(e)
+        out += [t / s for t in e]
+    return out
+
+
+def ref_forward(layers, params, x, xd, info):
+    """params: flat list [w0, b0, w1, b1, ...] of value lists"""
+    v, d = list(x), list(xd)
+    for j, l in enumerate(layers):
+        w, b = params[2 * j], params[2 * j + 1]
+        if l[0] == "dense":
+            if len(d) == 1:
+                d = [1] + d      # a single vector is a one-row matrix: the result has dims [1, nout]
+            v, d = ref_matmul_wt(v, d, w, l[2], l[1], b)
+            v = ref_act(l[3], v, d, info)
+        else:
+            v, d = ref_conv(v, d, w, list(l[1]), b, l[2][0], l[2][1])
+            v = ref_act(l[3], v, d, info)
+    return v, d
+
+
+def ref_loss(cost, out, od, target):
+    if cost == "mse":
+        return sum((t - o) ** 2 for t, o in zip(target, out)) / prod(od)
+    return sum(-t * math.log(o) for t, o in zip(target, out)) / od[0]
+
+
+def model_case(rng, tier):
+    kind = rng.choice(["dense", "dense", "dense", "conv"])
+    layers = []
+    if kind == "dense":
+        sizes = [rng.randint(1, 3) for _ in range(rng.randint(2, 4))]
+        n_layers = len(sizes) - 1
+        cost = rng.choice(["mse", "ce"])
+        for j in range(n_layers):
+            last = j == n_layers - 1
+            if last and cost == "ce":
+                act = rng.choice(["softmax", "sigmoid"])
+            else:
+                act = rng.choice(["none", "relu", "sigmoid", "softmax"]) if last else rng.choice(["none", "relu", "sigmoid"])
+            nin, nout = sizes[j], sizes[j + 1]
+            layers.append(("dense", nin, nout, act, [rng.uniform(-1, 1) for _ in range(nin * nout)],
+                           [rng.uniform(-0.5, 0.5) for _ in range(nout)]))
+        batch = rng.choice([[], [1], [3], [2], [2, 2]])
+        in_dims = batch + [sizes[0]]
+    else:
+        cost = "mse"
+        depth = rng.randint(1, 2)
+        rows, cols = rng.randint(3, 5), rng.randint(3, 5)
+        n_layers = rng.randint(1, 2)
+        batch = rng.choice([[], [1], [2]])
+        in_dims = batch + [depth, rows, cols]
+        d, r, c = depth, rows, cols
+        for j in range(n_layers):
+            fr, fc = rng.randint(1, min(2, r)), rng.randint(1, min(3, c))
+            sr, sc = rng.randint(1, 2), rng.randint(1, 2)
+            count = rng.randint(1, 2)
+            act = rng.choice(["none", "relu", "sigmoid"])
+            layers.append(("convl", (count, d, fr, fc), (sr, sc), act,
+                           [rng.uniform(-1, 1) for _ in range(count * d * fr * fc)],
+                           [rng.uniform(-0.5, 0.5) for _ in range(count)]))
+            d, r, c = count, (r - fr) // sr + 1, (c - fc) // sc + 1
+    lr = rng.choice([0.1, 0.5, 0.01, 1.0])
+    ins = [("model", layers, cost, lr)]
+    info = {}
+    params0 = []
+    for l in layers:
+        params0 += [list(l[4]), list(l[5])]
+    _, out_dims = ref_forward([tuple(l) for l in layers], params0, [0.5] * prod(in_dims), in_dims, info)
+    iters = rng.randint(1, 4)
+    meta = {"layers": layers, "cost": cost, "lr": lr, "iters": []}
+    ins.append(("params",))
+    for it in range(iters):
+        x = [rng.uniform(-1, 1) for _ in range(prod(in_dims))]
+        ins.append(("leaf", False, in_dims, x))
+        xi = len(ins) - 1
+        ins.append(("forward", xi))
+        fi = len(ins) - 1
+        if cost == "ce":
+            n = out_dims[-1]
+            t = []
+            for r_ in range(prod(out_dims) // n):
+                hot = rng.randrange(n)
+                t += [1.0 if q == hot else 0.0 for q in range(n)]
+        else:
+            t = [rng.uniform(-1, 1) for _ in range(prod(out_dims))]
+        ins.append(("leaf", False, out_dims, t))
+        ti = len(ins) - 1
+        double = rng.random() < 0.15
+        ins.append(("mbackward", ti))
+        bi = len(ins) - 1
+        if double:
+            ins.append(("mbackward", ti))
+        ins.append(("mupdate",))
+        ins.append(("params",))
+        pi = len(ins) - 1
+        meta["iters"].append({"x": x, "xd": in_dims, "t": t, "forward": fi, "loss": bi, "params_after": pi,
+                              "double": double, "input": xi})
+        # C18: once the model has moved on, the previous input is sole owner of its buffer again
+        if it > 0 and rng.random() < 0.5:
+            prev = meta["iters"][it - 1]["input"]
+            if not meta["iters"][it - 1].get("taken"):
+                ins.append(("takevec", prev))
+                meta["iters"][it - 1]["taken"] = len(ins) - 1
+    c = case("model", ins, "%s:%s:%s" % (kind, cost, "batch" + "x".join(map(str, batch)) if batch else "%s:%s:unbatched" % (kind, cost)),
+             rtol=1e-7)
+    c["model_meta"] = meta
+    return c
+
+
+def gen_model_cases(tier, rng, count):
+    return [model_case(rng, tier) for _ in range(count)]
+
+
+def gen_C15(tier, rng):
+    return gen_model_cases(tier, rng, 250 if tier == "quick" else 3000)
+
+
+def gen_C14(tier, rng):
+    return gen_model_cases(tier, rng, 250 if tier == "quick" else 3000)
+
+
+def obs_params(ob):
+    """[(tracked, dims, vals, has_grad)] from a `params` observation"""
+    out = []
+    for j in range(0, len(ob), 2):
+        arr, g = ob[j], ob[j + 1]
+        out.append((arr[1][0], list(arr[1][1:]), list(arr[2]), g[0] == 4))
+    return out
+
+
+def approx(a, b, tol):
+    return abs(a - b) <= tol * max(1.0, abs(a), abs(b))
+
+
+def post_formulas(cases, rust, model):
+    """C15 on corgi's own output: forward values and the loss against the reference formulas evaluated
+    on the parameters read through the hook"""
+    fails = []
+    n = 0
+    for i, (c, r) in enumerate(zip(cases, rust)):
+        meta = c.get("model_meta")
+        if not meta or any(o in ("panic", "timeout", "nohook") for o in r):
+            continue
+        layers = [tuple(l) for l in meta["layers"]]
+        pidx = 1
+        for it in meta["iters"]:
+            params = [p[2] for p in obs_params(r[pidx])]
+            info = {}
+            out, od = ref_forward(layers, params, it["x"], it["xd"], info)
+            n += 1
+            fo = r[it["forward"]][0]
+            if list(fo[1][1:]) != od or not all(approx(a, b, 1e-9) for a, b in zip(fo[2], out)):
+                fails.append({"case": i, "confirmed": True,
+                              "reason": "Model::forward returned dims %s values %s; the layer formulas give dims %s "
+                                        "values %s" % (fo[1][1:], fo[2][:6], od, out[:6])})
+                break
+            loss = r[it["loss"]][0][2][0]
+            ref = ref_loss(meta["cost"], out, od, it["t"])
+            if not approx(loss, ref, 1e-9):
+                fails.append({"case": i, "confirmed": True,
+                              "reason": "Model::backward returned %r; the sum of the cost array is %r" % (loss, ref)})
+                break
+            pidx = it["params_after"]
+    return fails, n
+
+
+def post_train_step(cases, rust, model):
+    """C14 on corgi's own output: every update is -lr times the gradient of the current loss at the parameters
+    observed before the iteration (central differences of the reference loss)"""
+    fails = []
+    n = 0
+    for i, (c, r) in enumerate(zip(cases, rust)):
+        meta = c.get("model_meta")
+        if not meta or any(o in ("panic", "timeout", "nohook") for o in r):
+            continue
+        layers = [tuple(l) for l in meta["layers"]]
+        pidx = 1
+        for it in meta["iters"]:
+            before = obs_params(r[pidx])
+            after = obs_params(r[it["params_after"]])
+            params = [list(p[2]) for p in before]
+            info = {}
+            ref_forward(layers, params, it["x"], it["xd"], info)
+            pidx = it["params_after"]
+            if info.get("min_preact", 1.0) < 1e-3:
+                continue      # too close to the kink of relu for finite differences
+            n += 1
+            mult = 2.0 if it["double"] else 1.0
+            bad = None
+            for pj in range(len(params)):
+                if after[pj][1] != before[pj][1] or after[pj][0] != 1 or after[pj][3]:
+                    bad = "parameter %d after the update: tracked=%s dims %s gradient present=%s" % (
+                        pj, after[pj][0], after[pj][1], after[pj][3])
+                    break
+                for e in range(len(params[pj])):
+                    hstep = 1e-5
+                    keep = params[pj][e]
+                    params[pj][e] = keep + hstep
+                    o1, od = ref_forward(layers, params, it["x"], it["xd"], {})
+                    l1 = ref_loss(meta["cost"], o1, od, it["t"])
+                    params[pj][e] = keep - hstep
+                    o2, od = ref_forward(layers, params, it["x"], it["xd"], {})
+                    l2 = ref_loss(meta["cost"], o2, od, it["t"])
+                    params[pj][e] = keep
+                    g = (l1 - l2) / (2 * hstep)
+                    step = after[pj][2][e] - before[pj][2][e]
+                    want = -meta["lr"] * mult * g
+                    if abs(step - want) > 1e-5 * (1.0 + abs(want)) + 1e-7:
+                        bad = "parameter %d element %d moved by %r; -lr * dLoss/dtheta at the current parameters is %r" % (pj, e, step, want)
+                        break
+                if bad:
+                    break
+            if bad:
+                fails.append({"case": i, "confirmed": True, "reason": bad})
+                break
+    return fails, n
+
+
+POST["formulas"] = post_formulas
+POST["train_step"] = post_train_step
+
+_MODEL_RULE = ("seeded random models: dense stacks of 1-3 layers with sizes 1-3, activations none/relu/sigmoid/softmax, "
+               "costs mse / cross-entropy (one-hot targets), input unbatched, [1], [2], [3] or [2,2] rows; convolutional "
+               "stacks of 1-2 layers on 3..5 x 3..5 images, depth 1-2, filters <= 2x3, strides 1-2, batch absent/[1]/[2]; "
+               "1-4 iterations of forward / backward / update with fresh batches, a doubled backward before the update "
+               "in 15% of the iterations; observed: forward output, loss, every parameter (values, tracking, gradient) "
+               "before and after each update through the verif_parameters hook, and Vec::from on the previous "
+               "iteration's input; compared with the model (rtol 1e-7); distinct = distinct program text")
+
+PROPS["C15"] = {
+    "gen": gen_C15,
+    "rule": _MODEL_RULE + "; forward values and loss are also compared with a pure-Python evaluation of the documented "
+            "formulas on the parameters corgi reports",
+    "exhaustive": {"quick": False, "thorough": False},
+    "assumptions": ["cross-entropy is only used after softmax or sigmoid (positive outputs)"],
+    "post": ["formulas"],
+}
+
+PROPS["C14"] = {
+    "gen": gen_C14,
+    "rule": _MODEL_RULE + "; every parameter change is also compared with -lr times a central-difference gradient of "
+            "the reference loss at the parameters observed before the iteration (tolerance 1e-5; iterations with a relu "
+            "pre-activation within 1e-3 of 0 are skipped for this predicate only)",
+    "exhaustive": {"quick": False, "thorough": False},
+    "assumptions": ["cross-entropy is only used after softmax or sigmoid (positive outputs)"],
+    "post": ["train_step"],
+}
